@@ -196,7 +196,21 @@ theorem checkForExistenceLoop_gs (env) {d : DirStream} (hd : DirOK fs0 d) (name 
     unfold checkForExistenceLoop
     refine GS.bind (findEntryG_gs hfit env hd name isDir _) ?_
     rintro ⟨r, gen'⟩ _
-    gs
+    dsimp only
+    split
+    · exact GS.pure trivial
+    · split
+      · split
+        · refine GS.bind (findEntryG_gs hfit env hd _ none none) ?_
+          rintro ⟨r2, g2⟩ _
+          dsimp only
+          split
+          · exact GS.pure trivial
+          · exact GS.fail _
+          · exact ih _
+        · exact GS.pure trivial
+      · exact ih _
+    · exact GS.fail _
 
 theorem checkForExistence_gs (env) {d : DirStream} (hd : DirOK fs0 d) (name isDir) :
     GS fs0 sz (WClass fs0) (checkForExistence env d name isDir) (fun _ => True) := by
